@@ -4,11 +4,11 @@ import core
 
 def plan(tier, seed, ctx):
     modules = {'c16k': [('harness/C16_kernel.cpp', 'prod17'), ('src/algo/one_shot_event.cpp', 'prod17'), ('src/exe/inline.cpp', 'prod17'), ('src/util/mutex_event.cpp', 'prod17')]}
-    fns = ['c16k_done', 'c16k_add_done_done', 'c16k_waiter0', 'c16k_waiter1', 'c16k_epilogue']
+    fns = ['c16k_done', 'c16k_done_b', 'c16k_add_done_done', 'c16k_waiter0', 'c16k_waiter1', 'c16k_epilogue']
     head = core.decls(fns) + 'void c16k_prologue(uint32_t);\nvoid c16k_p1(void) { c16k_prologue(1); }\nvoid c16k_p2(void) { c16k_prologue(2); }\n'
     Q = [('c16k_done_2waiters', 'c16k_p1', ['c16k_done', 'c16k_waiter0', 'c16k_waiter1'], 'count 1: final Done || two waiters registering'),
          ('c16k_adddone_done_waiter', 'c16k_p2', ['c16k_add_done_done', 'c16k_done', 'c16k_waiter0'], 'count 2: {Add;Done;Done} || Done || one waiter registering'),
-         ('c16k_done_done_waiter', 'c16k_p2', ['c16k_done', 'c16k_done', 'c16k_waiter0'], 'count 2: Done || Done || one waiter registering')]
+         ('c16k_done_done_waiter', 'c16k_p2', ['c16k_done', 'c16k_done_b', 'c16k_waiter0'], 'count 2: Done || Done || one waiter registering')]
     if tier != 'quick':
         Q.append(('c16k_adddone_done_2waiters', 'c16k_p2', ['c16k_add_done_done', 'c16k_done', 'c16k_waiter0', 'c16k_waiter1'], 'count 2: {Add;Done;Done} || Done || two waiters'))
     queries = []
